@@ -289,9 +289,10 @@ def gen_form(rng, n, big, depth, bools, top=False):
         a = rng.random()
         if a < 0.55:
             return gen_rel(rng, n, big, depth=1)
-        if a < 0.8 and n:
-            i = rng.choice(bools) if bools and rng.random() < 0.85 else rng.randrange(n)
-            return ("b", i)
+        if a < 0.8 and bools:
+            # only variables whose domain is within 0..1: clpz raises a domain/type error (instead of
+            # failing) when a variable already bound to another integer is used as a truth value
+            return ("b", rng.choice(bools))
         if a < 0.9 and n:
             return ("in", rng.randrange(n), gen_dom_big(rng) if big and rng.random() < 0.5 else gen_dom_small(rng, 5))
         return ("k", rng.choice([0, 1]))
@@ -358,8 +359,10 @@ def gen_system(rng, big):
             break
     bools = [i for i, d in enumerate(doms) if dom_set(d) <= {0, 1}]
     cons = [gen_con(rng, n, big, bools) for _ in range(rng.choice([1, 2, 2, 3, 3, 4, 5]))]
+    # large-magnitude stream: domains are always posted first (a constraint such as all_distinct posted
+    # while a variable still has a 2^64-wide interval makes clpz enumerate that interval)
     return {"n": n, "doms": doms, "cons": cons, "big": big, "box": box,
-            "interleave": rng.random() < 0.3, "perm": rng.random()}
+            "interleave": (not big) and rng.random() < 0.3, "perm": rng.random()}
 
 
 SELS = ["leftmost", "ff", "ffc", "min", "max"]
@@ -952,15 +955,26 @@ def run(ctx):
         for i, c in enumerate(diff.load_corpus("C27")):
             c = dict(c, id="k%d" % i)
             cases.append(rebuild(c))
-        nsys, nbig, ngr, ndom = (260, 90, 500, 120) if tier == "quick" else (5200, 1800, 12000, 2500)
+        nsys, nbig, ngr, ndom = (170, 60, 300, 80) if tier == "quick" else (1200, 400, 4000, 800)
         k = 0
         for big, cnt in ((False, nsys), (True, nbig)):
-            for _ in range(cnt):
-                sysd = gen_system(rng, big)
+            # candidates are first solved by the reference; systems with at least one solution and
+            # fewer than the whole box are preferred (about 80% of the stream)
+            cand = [gen_system(rng, big) for _ in range(4 * cnt)]
+            res = core.run_model(["solve\tp%d\tleftmost\tup\tref\t%s" % (i, sys_md(s["doms"], s["cons"])) for i, s in enumerate(cand)])
+            good, dull = [], []
+            for i, s in enumerate(cand):
+                r = res.get("p%d" % i, "")
+                ns = int(r.split(" ")[0][2:]) if r.startswith("n=") else -1
+                (good if 0 < ns < s["box"] else dull).append(s)
+            chosen = good[:int(cnt * 0.8)]
+            chosen += dull[:cnt - len(chosen)]
+            rng.shuffle(chosen)
+            for sysd in chosen:
                 if tier == "quick":
                     optsets = rng.sample(OPTION_SETS, 3)
                 else:
-                    optsets = rng.sample(OPTION_SETS, 8)
+                    optsets = rng.sample(OPTION_SETS, 6)
                 optim = gen_optim(rng, sysd) if rng.random() < 0.3 else None
                 cases.append(make_system_case("s%d" % k, sysd, optsets, optim))
                 k += 1
